@@ -708,7 +708,27 @@ func BranchEndReq(commit bool, b *Branch) *wire.Msg {
 // one after the other like the real TC, each repeated up to `deliveries` times regardless of the answer when
 // deliveries > 1 (duplicate delivery), waiting `wait` for each response.
 func (t *TC) DrivePhaseTwo(xid string, commit bool, deliveries int, wait time.Duration) []*PhaseTwoResult {
-	bs := t.BranchesOf(xid)
+	return t.drivePhaseTwo(t.BranchesOf(xid), xid, commit, deliveries, wait)
+}
+
+// DrivePhaseTwoReported is DrivePhaseTwo without the branches whose last report is PhaseOne_Failed (4): the real
+// coordinator removes such a branch instead of sending it a phase-two request.
+func (t *TC) DrivePhaseTwoReported(xid string, commit bool, wait time.Duration) []*PhaseTwoResult {
+	var bs []*Branch
+	t.mu.Lock()
+	if g := t.globals[xid]; g != nil {
+		for _, b := range g.Branches {
+			if n := len(b.Reports); n > 0 && b.Reports[n-1] == 4 {
+				continue
+			}
+			bs = append(bs, b)
+		}
+	}
+	t.mu.Unlock()
+	return t.drivePhaseTwo(bs, xid, commit, 1, wait)
+}
+
+func (t *TC) drivePhaseTwo(bs []*Branch, xid string, commit bool, deliveries int, wait time.Duration) []*PhaseTwoResult {
 	if !commit {
 		for i, j := 0, len(bs)-1; i < j; i, j = i+1, j-1 {
 			bs[i], bs[j] = bs[j], bs[i]
